@@ -328,7 +328,11 @@ func TestConcurrentReaders(t *testing.T) {
 // that is initialised once per process must still be cold when the goroutines start.
 func TestPurity(t *testing.T) {
 	for _, kind := range refl.Kinds {
-		pbt.Run(t, pbt.Target[Case]{Name: "pure/" + kind, Checks: 200, Gen: genPure(kind), Check: checkPure})
+		checks := 200
+		if kind == "doublylinkedlist" || kind == "singlylinkedlist" {
+			checks = 120 // fingerprints and observers walk the chain: three to four times the cost of the other kinds
+		}
+		pbt.Run(t, pbt.Target[Case]{Name: "pure/" + kind, Checks: checks, Gen: genPure(kind), Check: checkPure})
 	}
 	elemFamily = "any"
 	defer func() { elemFamily = "" }()
